@@ -273,7 +273,13 @@ func (d *motionDetector) updateBackground(new_frame *cptvframe.Frame, prevFFC bo
 			copy(d.background.Pix[d.rowStop+y], d.background.Pix[d.rowStop-1])
 		}
 
-		return 0, true
+		var average float64 = 0
+		for y := d.start; y < d.rowStop; y++ {
+			for x := d.start; x < d.columnStop; x++ {
+				average = average + float64(d.background.Pix[y][x])/d.numPixels
+			}
+		}
+		return average, true
 	}
 
 	var changed bool = false
